@@ -47,6 +47,21 @@ static inline Position nondet_pos(float bound) { return Position(nondet_fin(boun
 
 struct VhAttr { uint16 first, second; };
 
+// ---- frozen-world instrumentation (DESIGN 2.5): with ll2c --frozen every store / memcpy destination / free in LIBRARY code calls
+// ll_frozen_check(p) first; the harness registers the objects that make up the shared face (and font) here.
+#ifdef VH_FROZEN
+extern "C" bool __CPROVER_same_object(const void *, const void *);
+enum { VH_MAXFROZEN = 16 };
+static const void *vh_frozen[VH_MAXFROZEN]; static unsigned vh_nfrozen = 0;
+static inline void vh_freeze(const void *p) { if (vh_nfrozen < VH_MAXFROZEN) vh_frozen[vh_nfrozen++] = p; }
+extern "C" void ll_frozen_check(uint8_t *p) {
+  for (unsigned i = 0; i < VH_MAXFROZEN; ++i)
+    if (i < vh_nfrozen) __CPROVER_assert(!__CPROVER_same_object(p, vh_frozen[i]), "PROP: library code writes to (or frees) an object owned by the shared face/font");
+}
+#else
+static inline void vh_freeze(const void *) {}
+#endif
+
 struct World {
   Face *face; Silf *silf; GlyphCache *gc; const GlyphFace **glyphs;
   Segment *seg; Slot *sl[NS + NSPARE ? NS + NSPARE : 1]; CharInfo *ci;
@@ -93,6 +108,9 @@ static inline void vh_make_face(World &w) {
   w.silf->m_aPassBits = 0; w.silf->m_aCollision = 0; w.silf->m_numPasses = 0; w.silf->m_numJusts = 0; w.silf->m_justs = 0;
   w.silf->m_dir = nondet_u8(); w.silf->m_flags = nondet_u8();
   face->m_silfs = silf; face->m_numSilf = 1;
+  // the face and everything reachable from it is shared state: frozen (preloaded configuration: no loader, nothing left to fill in)
+  vh_freeze(face); vh_freeze(gc); vh_freeze(glyphs); vh_freeze(silf);
+  for (unsigned i = 0; i < NG; ++i) { vh_freeze(glyphs[i]); vh_freeze(glyphs[i]->m_attrs.m_array.values); }
 }
 
 // Segment with NS live slots S[0..NS-1] linked in array order and NSPARE slots on the free list.
